@@ -1420,7 +1420,9 @@ class Interp:
             if ds in ("staticmethod",):
                 return out
             if ds in ("classmethod",):
-                return out.bind(obj.cls)
+                # a classmethod reached through an SObj that stands for the CLASS itself (its class attributes are the
+                # SObj's fields, e.g. CanvasCache's `cls`): `cls` stays that model object
+                return out.bind(obj if getattr(obj, "stands_for_class", False) else obj.cls)
             if ds in ("property", "functools.cached_property", "typing.final", "abc.abstractmethod") or ds.endswith(".setter"):
                 continue
             fr = Frame(None, fv.ref.mod)
